@@ -457,8 +457,8 @@ def _suites_empty() -> Dict[str, Suite]:
     imp = ["From RG Require Import Gen.GenUnits Model.Recipe Model.Table Model.Units Model.Html Model.HtmlTok."]
     return {
         "cells": Suite("cells", imp, "node * list (list hcell) * str", "res str", "check_render_tree",
-                       show="(fun i => let '(a, b, c) := i in render_recipe_tree_with a b c)", shard=40),
-        "tok": Suite("tok", imp, "str", "list token", "check_tokenize", show="tokenize", shard=40),
+                       show="(fun i => let '(a, b, c) := i in render_recipe_tree_with a b c)", shard=20),
+        "tok": Suite("tok", imp, "str", "list token", "check_tokenize", show="tokenize", shard=12),
         "quoteattr": Suite("quoteattr", imp, "str", "str", "check_quoteattr", show="quoteattr", shard=400),
         "escape": Suite("escape", imp, "str", "str", "check_html_escape", show="html_escape", shard=400),
         "markup": Suite("markup", imp, "str", "str", "check_markup_escape", show="markup_escape", shard=400),
@@ -472,7 +472,7 @@ def suites(tier: str, seed: int) -> List[Suite]:
     if tier == "replay":
         return list(S.values())
     rng = random.Random(seed * 15485863 + 10)
-    n = 260 if tier == "quick" else 4000
+    n = 260 if tier == "quick" else 2000
     skels = G.random_skeletons(rng, n)
     skels = [s for s in skels if G.n_leaves(s) <= (30 if tier == "quick" else 70)]
     seen = set()
@@ -483,7 +483,7 @@ def suites(tier: str, seed: int) -> List[Suite]:
             continue
         seen.add(c.key())
         S["cells"].cases.append(c)
-        if isinstance(c.impl, str) and len(c.impl) < 20000:
+        if isinstance(c.impl, str) and len(c.impl) < 12000:
             S["tok"].cases.append(tok_case(c.impl))
     # hand-made
     for x in ["", "plain", "a<b", "a&b", "\"", "'", "\"'", "a\"b'c&<>", "\n", "\r", "\t", "a\nb", "&amp;", "&#10;",
